@@ -19,4 +19,8 @@ NOTES = ("Every check = TLC model check of an implementation-shaped TLA+ spec + 
 
 NOT_APPLICABLE = {}
 
+# groups whose checks are registered in MANIFEST.json (a group is added here once it has been reviewed,
+# exits 0 on the unchanged tree and has been tried against mutants)
+ENABLED_GROUPS = ["speed", "dispatch"]
+
 CHECKS = {}
